@@ -12,6 +12,8 @@ hook_commits = subprocess.run(["git", "-C", "/repo", "log", "--format=%h %s"], c
 EXTRA = {"826eff4"}  # conductor hook (committed by the round driver under a generic message)
 hook_commits = [l.split(" ")[0] for l in hook_commits if l.split(" ", 1)[1].startswith("verif hook") or l.split(" ")[0] in EXTRA]
 
+CLAIMED = [l.strip() for l in open(os.path.join(VERIF, 'bin', 'claimed.txt')) if l.strip() and not l.startswith('#')]
+PROPS = {k: v for k, v in PROPS.items() if k in CLAIMED}
 checks = []
 for pid in sorted(PROPS):
     P = PROPS[pid]
